@@ -141,6 +141,11 @@ theorem drun_inflight_le {ls : List DLabel} {s : DSt} (h : drun c (dinit c) ls =
   | finish i r b =>
     obtain ⟨ss, _, _, _, _, _, rfl⟩ := dstep_finish_inv hstep
     exact Nat.le_trans (List.length_filter_le _ _) hP
+  | closeSession i k =>
+    obtain ⟨ss, _, _, _, rfl⟩ := dstep_closeSession_inv hstep
+    show (setSessions s.inflight i (ss.filter (fun x => x ≠ k))).length ≤ c.jobs
+    rw [setSessions_length]
+    exact hP
   | signal => obtain ⟨_, _, rfl⟩ := dstep_signal_inv hstep; exact hP
   | beginDrop => obtain ⟨_, _, _, rfl⟩ := dstep_beginDrop_inv hstep; exact hP
   | drop => obtain ⟨db, rest, _, _, rfl⟩ := dstep_drop_inv hstep; exact hP
